@@ -438,13 +438,14 @@ func init() {
 		c07Wire(r, d, seed)
 	}
 	props["C08"] = func(r *Result, d *drv.Driver, tier string, seed int64, replay string) {
-		r.Rule = sessRule("C08 oracle: each registered item invoked exactly once in order with its payload; each item's status/reason/message/payload is its own handler's outcome; the process survives (all runs are in-process); plus batches in which a handler panics with values hostile to rendering (panicking Error/String methods, typed nil errors), batches in which a handler RETURNS such an error (typed nil pointer, panicking Error / ResultReason method) or panics with nil, and batches in which a handler returns a first result together with its error (half-filled, typed nil, unencodable), and batches with a handler slower than the server's timeouts.")
+		r.Rule = sessRule("C08 oracle: each registered item invoked exactly once in order with its payload; each item's status/reason/message/payload is its own handler's outcome; the process survives (all runs are in-process); plus batches in which a handler panics with values hostile to rendering (panicking Error/String methods, typed nil errors), batches in which a handler RETURNS such an error (typed nil pointer, panicking Error / ResultReason method) or panics with nil, and batches in which a handler returns a first result together with its error (half-filled, typed nil, unencodable), and batches with a handler slower than the server's timeouts, and batches during whose slow handler another connection is accepted and served (then completed, the built-in Discover Versions behind the slow item included).")
 		b, p := sizes(tier)
 		sessionCorrespondence(r, d, seed*31+8, b, p, scriptOpts{maxArr: 6, maxItems: 5}, 150*time.Millisecond, oracleC08)
 		c08EvilPanics(r)
 		c08EvilErrors(r)
 		c08ValueWithError(r)
 		c08SlowHandlers(r)
+		c08BusyServer(r)
 		c08Messages(r)
 		c08Registration(r)
 	}
@@ -462,9 +463,10 @@ func init() {
 		r.Stats["phase:single-P-burst-batches"] = b/4 + 2
 	}
 	props["C10"] = func(r *Result, d *drv.Driver, tier string, seed int64, replay string) {
-		r.Rule = sessRule("C10 oracle: no handler for undecodable / inconsistent / asynchronous messages; the connection is closed; concurrent sessions keep matching their own model traces; Shutdown returns nil after the peers are gone (sessions released).")
+		r.Rule = sessRule("C10 oracle: no handler for undecodable / inconsistent / asynchronous messages; the connection is closed; concurrent sessions keep matching their own model traces; Shutdown returns nil after the peers are gone (sessions released); plus, on a TLS-serving Server: peers that leave without a byte, after the first bytes of a TLS record, or speak plaintext - connection closed, no callback at all.")
 		b, p := sizes(tier)
 		sessionCorrespondence(r, d, seed*31+10, b, p+2, scriptOpts{maxArr: 5, maxItems: 3, allowStall: true}, 60*time.Millisecond, oracleC10)
+		c10Probes(r)
 	}
 	props["C15"] = func(r *Result, d *drv.Driver, tier string, seed int64, replay string) {
 		r.Rule = sessRule("C15 oracle: with ReadTimeout every wait for a request is immediately preceded by a fresh read deadline, with WriteTimeout every response by a fresh write deadline, with zero timeouts no deadline is ever set; a peer stalling inside a request is disconnected when the real deadline (60 ms) expires; plus the same rules observed on real TLS connections (handshake included) for every zero/non-zero combination of the two timeouts, on the server side and on the Client side (incl. a 32 MiB request whose writing takes longer than the Client's ReadTimeout while the response follows at once); plus peers falling silent before the first request, at a message boundary after 1..3 exchanges, and inside the next item header or body (plain and TLS): the server must hang up by itself at the deadline; a request trickling in with every gap below ReadTimeout but the whole above it is not answered.")
